@@ -166,6 +166,7 @@ type alphaCmp struct {
 	bwd              map[types.Object]types.Object
 	err              string
 	path             []string
+	guards           map[*ast.Ident]*ast.Ident // symbolic variables of type switches: source -> copy
 }
 
 func (c *alphaCmp) fail(format string, args ...interface{}) bool {
@@ -177,6 +178,12 @@ func (c *alphaCmp) fail(format string, args ...interface{}) bool {
 
 func (c *alphaCmp) obj(info *types.Info, id *ast.Ident) types.Object {
 	if o := info.Defs[id]; o != nil {
+		if v, ok := o.(*types.Var); ok && v.Embedded() {
+			// the identifier of an embedded field also USES its type: that is what must survive
+			if u := info.Uses[id]; u != nil {
+				return u
+			}
+		}
 		return o
 	}
 	return info.Uses[id]
@@ -190,6 +197,10 @@ func (c *alphaCmp) ident(a, b *ast.Ident) bool {
 	}
 	switch ca.Kind {
 	case "none":
+		if c.guards[a] == b && b != nil {
+			// the symbolic variable of a type switch: bound through the clauses' implicit variables
+			return true
+		}
 		if a.Name != b.Name {
 			return c.fail("unresolved identifier %s copied as %s", a.Name, b.Name)
 		}
@@ -211,6 +222,41 @@ func (c *alphaCmp) ident(a, b *ast.Ident) bool {
 		}
 		if prev, ok := c.bwd[ob]; ok && prev != oa {
 			return c.fail("two different locals (%s, %s) are copied to one name %s", prev.Name(), a.Name, b.Name)
+		}
+		c.fwd[oa] = ob
+		c.bwd[ob] = oa
+	}
+	return true
+}
+
+// bindTypeSwitch relates the symbolic variable of `switch x := v.(type)` and the implicit
+// per-clause variables it stands for: x declares no object of its own; every clause of the
+// copy must have an implicit variable spelled like the copy's symbolic variable.
+func (c *alphaCmp) bindTypeSwitch(a, b *ast.TypeSwitchStmt) bool {
+	ga, oka := a.Assign.(*ast.AssignStmt)
+	gb, okb := b.Assign.(*ast.AssignStmt)
+	if !oka || !okb || len(ga.Lhs) != 1 || len(gb.Lhs) != 1 {
+		return true
+	}
+	ia, oka := ga.Lhs[0].(*ast.Ident)
+	ib, okb := gb.Lhs[0].(*ast.Ident)
+	if !oka || !okb || a.Body == nil || b.Body == nil || len(a.Body.List) != len(b.Body.List) {
+		return true
+	}
+	if c.guards == nil {
+		c.guards = map[*ast.Ident]*ast.Ident{}
+	}
+	c.guards[ia] = ib
+	for k := range a.Body.List {
+		oa, ob := c.srcInfo.Implicits[a.Body.List[k]], c.genInfo.Implicits[b.Body.List[k]]
+		if (oa == nil) != (ob == nil) {
+			return c.fail("type switch clause %d: implicit variable present on one side only", k)
+		}
+		if oa == nil {
+			continue
+		}
+		if ob.Name() != ib.Name {
+			return c.fail("type switch variable %s is copied as %s but clause %d binds %s", ia.Name, ib.Name, k, ob.Name())
 		}
 		c.fwd[oa] = ob
 		c.bwd[ob] = oa
@@ -253,6 +299,11 @@ func (c *alphaCmp) node(a, b ast.Node) bool {
 			return c.fail("node present on one side only (%T vs %T)", a, b)
 		}
 		return true
+	}
+	if ta, ok := a.(*ast.TypeSwitchStmt); ok {
+		if tb, ok := b.(*ast.TypeSwitchStmt); ok && !c.bindTypeSwitch(ta, tb) {
+			return false
+		}
 	}
 	// parentheses the printer may add or drop do not change structure that matters
 	if ia, ok := a.(*ast.Ident); ok {
@@ -430,6 +481,15 @@ func CheckC15(e *Env) int {
 				sn = append(sn, c15Corpus[perm[j]])
 			}
 		}
+		if sc.Str == "" {
+			var keep []snippet
+			for _, x := range sn {
+				if !c15NeedsStrAlias[x.Name] {
+					keep = append(keep, x)
+				}
+			}
+			sn = keep
+		}
 		id := fmt.Sprintf("cp%03d", i)
 		progs = append(progs, c15Program(id, sn, sc, 100))
 		snipsOf[id] = sn
@@ -445,13 +505,14 @@ func CheckC15(e *Env) int {
 	}
 	type bres struct {
 		issues map[string]string // program -> first problem
+		gen    map[string]string // program -> generated file (kept for programs with a problem)
 		held   map[string][]string
 		incon  []string
 		kinds  map[string]int
 	}
 	out := make([]bres, len(batches))
 	e.ParallelDo(len(batches), func(bi int) {
-		br := bres{issues: map[string]string{}, held: map[string][]string{}, kinds: map[string]int{}}
+		br := bres{issues: map[string]string{}, held: map[string][]string{}, kinds: map[string]int{}, gen: map[string]string{}}
 		defer func() { out[bi] = br }()
 		b, err := e.NewBatch(fmt.Sprintf("c15-%d", bi), batches[bi], nil)
 		if err != nil {
@@ -459,6 +520,13 @@ func CheckC15(e *Env) int {
 			return
 		}
 		defer b.Remove()
+		defer func() {
+			for id := range br.issues {
+				if g, err := os.ReadFile(filepath.Join(b.Root, id, "app", "wire_gen.go")); err == nil {
+					br.gen[id] = string(g)
+				}
+			}
+		}()
 		b.Precheck()
 		for id, msg := range b.PreBad {
 			br.incon = append(br.incon, "harness: "+id+" does not type-check: "+secondLine(msg))
@@ -665,7 +733,11 @@ func CheckC15(e *Env) int {
 			if len(short) > 160 {
 				short = short[:160]
 			}
-			rep.Violate(id, Issue{Prop: "C15", Clause: short, Witness: clause, Sig: "C15:" + strings.SplitN(short, ":", 2)[0]}, p.Files(false), map[string]string{"snippets.txt": p.Feat["snippets"], "scheme.txt": p.Feat["scheme"]})
+			files := p.Files(false)
+			if g := br.gen[id]; g != "" {
+				files[id+"/app/wire_gen.go"] = g
+			}
+			rep.Violate(id, Issue{Prop: "C15", Clause: short, Witness: clause, Sig: "C15:" + strings.SplitN(short, ":", 2)[0]}, files, map[string]string{"snippets.txt": p.Feat["snippets"], "scheme.txt": p.Feat["scheme"]})
 		}
 	}
 	var missing []string
